@@ -481,4 +481,58 @@ theorem answerVoters_no_permit (c : List Member) (as : List Answer) (hall : ∀ 
         cases hp : proteinToVote m a <;> simp_all
       · exact ih as (fun a ha => hall a (by simp [ha])) v hv
 
+/-! ### the ledger: statistics and capped history -/
+
+theorem lastN_of_le {α : Type} (n : Nat) (xs : List α) (h : xs.length ≤ n) : lastN n xs = xs := by
+  unfold lastN; rw [Nat.sub_eq_zero_of_le h]; rfl
+
+theorem lastN_length {α : Type} (n : Nat) (xs : List α) : (lastN n xs).length ≤ n := by
+  unfold lastN; rw [List.length_drop]; omega
+
+theorem lastN_lastN_append {α : Type} (n : Nat) (xs ys : List α) :
+    lastN n (lastN n xs ++ ys) = lastN n (xs ++ ys) := by
+  by_cases h : xs.length ≤ n
+  · rw [lastN_of_le n xs h]
+  · have hk : xs.length - n ≤ xs.length := Nat.sub_le _ _
+    unfold lastN
+    rw [List.length_append, List.length_drop, List.length_append]
+    have e1 : xs.length - (xs.length - n) + ys.length - n = ys.length := by omega
+    have e2 : xs.length + ys.length - n = (xs.length - n) + ys.length := by omega
+    rw [e1, e2, ← List.drop_drop, List.drop_append_of_le_length hk]
+
+theorem record_history (l : Ledger) (r : Result) : (l.record r).history = lastN historyCap (l.history ++ [r]) := by
+  unfold Ledger.record
+  simp only
+  split
+  · rfl
+  · rw [lastN_of_le]; omega
+
+theorem recordAll_history (rs : List Result) : ∀ (l : Ledger) (xs : List Result), l.history = lastN historyCap xs →
+    (l.recordAll rs).history = lastN historyCap (xs ++ rs) := by
+  induction rs with
+  | nil => intro l xs h; simpa [Ledger.recordAll] using h
+  | cons r rs ih =>
+    intro l xs h
+    have := ih (l.record r) (xs ++ [r]) (by rw [record_history, h, lastN_lastN_append])
+    simpa [Ledger.recordAll, List.append_assoc] using this
+
+theorem recordAll_counts (rs : List Result) : ∀ (l : Ledger),
+    (l.recordAll rs).totalVotes = l.totalVotes + sumN (rs.map (·.votes.length)) ∧
+    (l.recordAll rs).reached = l.reached + (rs.filter (·.reached)).length ∧
+    (l.recordAll rs).failed = l.failed + (rs.filter (fun r => !r.reached)).length := by
+  induction rs with
+  | nil => intro l; simp [Ledger.recordAll, sumN]
+  | cons r rs ih =>
+    intro l
+    obtain ⟨h1, h2, h3⟩ := ih (l.record r)
+    simp only [Ledger.recordAll, List.foldl_cons] at h1 h2 h3 ⊢
+    rw [h1, h2, h3]
+    cases hr : r.reached <;> simp [Ledger.record, hr, sumN] <;> omega
+
+theorem filter_partition (rs : List Result) :
+    (rs.filter (·.reached)).length + (rs.filter (fun r => !r.reached)).length = rs.length := by
+  induction rs with
+  | nil => rfl
+  | cons r rs ih => cases hr : r.reached <;> simp [hr] <;> omega
+
 end Operon.Quorum
